@@ -602,7 +602,8 @@ def sc_items_event(rng):
     a.on_trait_change(lambda: None, 'xs_items')
     for args in ((), ('xs_items',), ('xs_items', 1), ('xs_items', 1, a.trait('xs')),
                  ('nope_items', 1, a.trait('xs')), ('xs_items', None, None),
-                 ('xs_items', 1, Int().as_ctrait()), ('xs_items', 1, a.trait('xs').items_event())):
+                 ('xs_items', 1, Int().as_ctrait()), ('xs_items', 1, a.trait('xs').handler.items_event()),
+                 ('nope_items', 1, a.trait('xs').handler.items_event())):
         try:
             a.trait_items_event(*args)
         except Exception:
@@ -728,6 +729,178 @@ def sc_default_attribute_error_warning(rng):
         gc.collect()
 
 
+def sc_plain_property(rng):
+    """standard Python descriptors on a HasTraits class (trait kind `generic`) and `__class__`"""
+    class A(HasTraits):
+        x = Int
+
+        @property
+        def p(self):
+            return self.x + 1
+
+        @p.setter
+        def p(self, v):
+            self.x = v
+
+        @p.deleter
+        def p(self):
+            del self.x
+
+        @property
+        def bad(self):
+            raise ValueError("bad")
+
+        @property
+        def ro(self):
+            return [self]
+
+    class B(A):
+        y = Int
+        p = Int(7)          # a trait shadowing an inherited plain property
+
+    class S(A):
+        __slots__ = ()
+
+    a = A()
+    log = []
+    ops = [lambda: a.p, lambda: setattr(a, "p", rng.choice([3, "s", None, 2 ** 70])),
+           lambda: delattr(a, "p"), lambda: a.bad, lambda: setattr(a, "bad", 1), lambda: delattr(a, "bad"),
+           lambda: a.ro, lambda: setattr(a, "ro", 1), lambda: a.__class__,
+           lambda: setattr(a, "__class__", rng.choice([B, A, S, int, HasTraits, None])),
+           lambda: getattr(a, "y", None), lambda: a.trait("p"), lambda: a.base_trait("bad"),
+           lambda: a.on_trait_change(lambda: log.append(1), "p"),
+           lambda: a.observe(lambda e: log.append(2), "x"), lambda: a.trait_set(p=4),
+           lambda: a.trait_get("p", "ro"), lambda: pickle.loads(pickle.dumps(a)), lambda: copy.deepcopy(a),
+           lambda: a.clone_traits(), lambda: a.trait_property_changed("p", 1, 2),
+           lambda: a.add_trait("p", Int()), lambda: a.remove_trait("p"), lambda: gc.collect()]
+    for k in range(60):
+        try:
+            rng.choice(ops)()
+        except Exception:
+            pass
+
+
+def sc_no_dict_instance(rng):
+    """instances whose __init__ never ran (object __dict__ still NULL in the C struct)"""
+    class A(HasTraits):
+        x = Int
+        xs = List(Int)
+        d = Instance(HasTraits, ())
+        any_ = Any
+        ev = Event
+        ro = ReadOnly
+        q = Property()
+
+        def _get_q(self):
+            return 1
+
+        def _x_changed(self):
+            pass
+
+    for k in range(12):
+        a = A.__new__(A)
+        ops = [lambda: a.x, lambda: delattr(a, "x"), lambda: setattr(a, "x", 1), lambda: a.xs.append(1),
+               lambda: setattr(a, "undeclared", 1), lambda: delattr(a, "undeclared"), lambda: a.undeclared,
+               lambda: a.__dict__, lambda: a.trait_get(), lambda: a.on_trait_change(lambda: None, "x"),
+               lambda: a.observe(lambda e: None, "xs.items"), lambda: a.d, lambda: setattr(a, "ev", 1),
+               lambda: a.ro, lambda: setattr(a, "ro", 2), lambda: delattr(a, "ro"), lambda: a.q,
+               lambda: a.trait_property_changed("q", 1, 2), lambda: a.add_trait("z", Int()),
+               lambda: a.remove_trait("z"), lambda: a._trait("x", 2), lambda: a._notifiers(True),
+               lambda: a.traits_inited(), lambda: a.traits_init(), lambda: a.__init__(x=3),
+               lambda: pickle.dumps(a), lambda: copy.copy(a), lambda: a.trait_items_event("xs_items", 1, a.trait("xs").handler.items_event()),
+               lambda: a._trait_change_notify(rng.random() < 0.5), lambda: a._trait_veto_notify(rng.random() < 0.5)]
+        rng.shuffle(ops)
+        for f in ops[:rng.randint(3, len(ops))]:
+            try:
+                f()
+            except Exception:
+                pass
+
+
+def sc_items_and_python_names(rng):
+    """`<name>_items` pseudo-attributes, Python / private / disallowed names, raw slot wrappers"""
+    from traits.api import HasStrictTraits, HasPrivateTraits, Python
+    from traits.ctraits import CHasTraits
+
+    class A(HasStrictTraits):
+        xs = List(Int)
+        dd = Dict(Str, Int)
+        py = Python
+        _priv = Any
+
+    class P(HasPrivateTraits):
+        v = Int
+
+    a, p = A(), P()
+    ev = a.trait("xs").handler.items_event()
+    names = ["xs_items", "dd_items", "nope_items", "py", "_priv", "_p2", "__dunder__", "nope", "xs", "", "v",
+             "_", "__", "py_items"]
+    vals = [1, None, "s", [1], {"a": 1}, ev, a, Undefined]
+    for k in range(120):
+        o = rng.choice([a, p])
+        nm = rng.choice(names)
+        v = rng.choice(vals)
+        f = rng.choice([
+            lambda: setattr(o, nm, v), lambda: getattr(o, nm), lambda: delattr(o, nm),
+            lambda: o.trait_items_event(nm, v, rng.choice([ev, Disallow.as_ctrait() if hasattr(Disallow, "as_ctrait") else ev,
+                                                           Int().as_ctrait(), Event().as_ctrait()])),
+            lambda: CHasTraits.__setattr__(o, rng.choice([nm, 5, None, b"x"]), v),
+            lambda: CHasTraits.__delattr__(o, rng.choice([nm, 5, None, b"x"])),
+            lambda: CHasTraits.__getattribute__(o, rng.choice([nm, 5, None, b"x"])),
+            lambda: o.trait(nm), lambda: o._trait(nm, rng.choice([-2, -1, 0, 1, 2, 3])),
+            lambda: o.on_trait_change(lambda: None, nm), lambda: o.add_trait(nm, Int()), lambda: o.remove_trait(nm),
+        ])
+        try:
+            f()
+        except Exception:
+            pass
+
+
+def sc_ctrait_public_setters(rng):
+    """documented CTrait attributes and methods with valid and invalid arguments"""
+    class A(HasTraits):
+        x = Int
+        m = Map({"a": 1})
+        d = DelegatesTo("o")
+        o = Instance(HasTraits)
+        p = Property(Int)
+        e = Event
+
+        def _get_p(self):
+            return 1
+
+        def _set_p(self, v):
+            pass
+
+    a = A()
+    a.o = A()
+    bag = [1, None, "s", True, -1, 99, 2 ** 70, (1,), [], {}, lambda *k: None, len, A, a, 1.5, Undefined]
+    for k in range(150):
+        t = rng.choice([a.trait(n) for n in ("x", "m", "d", "o", "p", "e")] + [Int().as_ctrait(), CTrait(0)])
+        v = rng.choice(bag)
+        f = rng.choice([
+            lambda: setattr(t, "modify_delegate", v), lambda: setattr(t, "post_setattr", v),
+            lambda: setattr(t, "comparison_mode", v), lambda: setattr(t, "setattr_original_value", v),
+            lambda: setattr(t, "post_setattr_original_value", v), lambda: setattr(t, "is_mapped", v),
+            lambda: setattr(t, "handler", v), lambda: setattr(t, "some_metadata", v),
+            lambda: t.set_default_value(v, rng.choice(bag)), lambda: t.default_value(),
+            lambda: t.default_value_for(rng.choice([a, v]), rng.choice(["x", v])),
+            lambda: t.validate(rng.choice([a, v]), rng.choice(["x", 5]), rng.choice(bag)),
+            lambda: t.delegate(rng.choice(["o", v]), rng.choice(["x", v]), rng.choice([0, 1, 2, 3, v]), rng.choice([True, v])),
+            lambda: t.clone(rng.choice([t, v])), lambda: t.property_fields, lambda: t.get_validate(),
+            lambda: t._notifiers(rng.choice([True, False, v])), lambda: t.items_event(),
+            lambda: CTrait(v), lambda: t.is_trait_type(v), lambda: t.get_default_value(),
+            lambda: t.full_info(a, "x", v), lambda: t.__getstate__(), lambda: copy.deepcopy(t),
+            lambda: setattr(a, rng.choice(["x", "m", "d", "p", "e"]), rng.choice(bag)),
+            lambda: getattr(a, rng.choice(["x", "m", "m_", "d", "p"])),
+        ])
+        try:
+            f()
+        except Exception:
+            pass
+
+
+
 SCENARIOS = [
     sc_handlers_mutate, sc_default_removes_trait, sc_default_method_removes_trait,
     sc_handler_removes_trait, sc_post_setattr_removes, sc_validator_removes_trait,
@@ -735,7 +908,8 @@ SCENARIOS = [
     sc_delegate_value_dies, sc_nonstr_prefix, sc_nonstr_names, sc_property_pickle,
     sc_gc_threshold, sc_trait_defs_roundtrip, sc_items_event, sc_huge, sc_getattr_hooks,
     sc_observe_mutating_handlers, sc_default_attribute_error_warning, sc_anytrait_handlers_mutate,
-    sc_delegate_dropped_during_access,
+    sc_delegate_dropped_during_access, sc_plain_property, sc_no_dict_instance,
+    sc_items_and_python_names, sc_ctrait_public_setters,
 ]
 
 
